@@ -6,7 +6,7 @@ set -u
 sid=$1; prop=$2; shift 2
 checks=${@:-$prop}
 wt=${WT_BASE:-/tmp/wt}/$sid; out=${OUT_BASE:-/tmp/seedout}/$sid
-export GOFLAGS=-mod=mod GOPROXY=off
+export GOFLAGS=-mod=mod GOPROXY=off DBUS_SESSION_BUS_ADDRESS=unix:path=/nonexistent
 cd $wt || exit 2
 git checkout -q -- . ; git clean -fdq
 demo=$(ls $out/*_test.go | head -1)
